@@ -43,7 +43,7 @@ def divDigitsW (dv : Nat) : List Nat → List Nat × Nat
 
 /-- `bignat_div(mant, uint32_t divisor)` (keeps the remainder in `digits[0]`, see Model.lean) -/
 def bignat_divW (x : BigNat) (dv0 : Nat) : BigNat :=
-  let dv := wrap factorBits dv0
+  let dv := wrap divisorBits dv0
   match x.digits with
   | [] => { first := wrap digitBits (wrap dividendBits (wrap divMulBits (wrap divMulBits (0 * bigBase) + x.first)) / dv), digits := [] }
   | d0 :: rest =>
